@@ -1,6 +1,8 @@
 package main
 
 import (
+	"regexp"
+	"go/ast"
 	"fmt"
 	"go/constant"
 	"go/token"
@@ -685,6 +687,7 @@ func (vc *VC) loopModifies(st *State, li *loopInfo) map[string]*modInfo {
 	// the provision.
 	vc.provisionalLoads = map[string]bool{}
 	vc.curLoop = li
+	vc.loopGhostLocals = map[string]bool{}
 	out := vc.loopModifiesOnce(st, li)
 	for arr := range vc.provisionalLoads {
 		if _, modified := out[arr]; modified {
@@ -854,6 +857,7 @@ func (vc *VC) loopModifiesOnce(st *State, li *loopInfo) map[string]*modInfo {
 				}
 			case ssa.CallInstruction:
 				vc.modOfCall(st, x, inLoop, add)
+				vc.modOfHooks(st, x, add)
 			case *ssa.Next:
 				if it, ok := x.Iter.(*ssa.Range); ok {
 					if mt, ok := types.Unalias(it.X.Type()).Underlying().(*types.Map); ok {
@@ -1199,6 +1203,18 @@ func (vc *VC) loopEnter(st *State, li *loopInfo, from *ssa.BasicBlock) {
 			break
 		}
 	}
+	// function-local ghost variables that a hook inside the loop assigns: unknown at the loop head (their invariants say
+	// what is known)
+	var gls []string
+	for n := range vc.loopGhostLocals {
+		gls = append(gls, n)
+	}
+	sort.Strings(gls)
+	for _, n := range gls {
+		if tv, ok := st.glocals[n]; ok {
+			st.glocals[n] = TV{T: vc.d.freshConst("glocal_"+n, tv.S.Sort), S: tv.S}
+		}
+	}
 	st.loopHeap[b] = entryHeap
 	// 4. automatic facts for range-over-slice index loops: -1 <= idx
 	vc.autoRangeFacts(st, li)
@@ -1218,6 +1234,39 @@ func (vc *VC) loopEnter(st *State, li *loopInfo, from *ssa.BasicBlock) {
 		}
 	}
 	vc.terminationCheck(st, li)
+	vc.laterIterationCover(st, li)
+}
+
+// laterIterationCover (path audit, thorough tier): the state assumed at the head of a range loop - havoc plus
+// invariants - must admit an iteration other than the first (range index >= 1). If it does not, something the loop
+// changes was not havocked (or an invariant is wrong) and everything proved after the loop holds only for loops that
+// run at most once. This is the audit that exposes a missing modifies-set entry (DESIGN 11.5e).
+func (vc *VC) laterIterationCover(st *State, li *loopInfo) {
+	if !vc.pathCovers {
+		return
+	}
+	for _, ins := range li.header.Instrs {
+		phi, ok := ins.(*ssa.Phi)
+		if !ok {
+			break
+		}
+		if phi.Comment != "rangeindex" {
+			continue
+		}
+		pv, ok := st.vals[phi]
+		if !ok || pv.T == "" {
+			continue
+		}
+		site := posString(vc.w, vc.loopPos(li))
+		// the same question without the extra condition: a loop head that is unreachable anyway (dead branch) is not a finding
+		base := append(vc.typeFacts(), st.assume...)
+		scb := vc.d.script(base, "", fmt.Sprintf("loop-head cover %s loop %d site=%s", shortFuncKey(vc.key), li.ordinal, site))
+		vc.obls = append(vc.obls, &Obligation{Func: vc.key, Label: fmt.Sprintf("loop%d:head-reachable", li.ordinal), Kind: "cover", Site: site, Props: vc.props(), Path: pathString(st.path), Script: scb, Expect: "pathcover"})
+		assumptions := append(vc.typeFacts(), st.assume...)
+		assumptions = append(assumptions, app(">=", pv.T, "0"))
+		sc := vc.d.script(assumptions, "", fmt.Sprintf("later-iteration cover %s loop %d site=%s", shortFuncKey(vc.key), li.ordinal, site))
+		vc.obls = append(vc.obls, &Obligation{Func: vc.key, Label: fmt.Sprintf("loop%d:later-iteration-reachable", li.ordinal), Kind: "cover", Site: site, Props: vc.props(), Path: pathString(st.path), Script: sc, Expect: "pathcover"})
+	}
 }
 
 // terminationCheck: in a function whose contract says "terminates", every loop is either a range loop (bounded by
@@ -1914,4 +1963,95 @@ func (vc *VC) execNext(st *State, x *ssa.Next) {
 	tup := x.Type().(*types.Tuple)
 	st.vals[x] = Val{Tuple: []Val{{T: ok, Typ: types.Typ[types.Bool]}, {T: k, Typ: tup.At(1).Type()}, {T: v, Typ: tup.At(2).Type()}}}
 	vc.assumeAllocated(st, v, tup.At(2).Type())
+}
+
+
+var heapArrayRe = regexp.MustCompile(`\b(?:F|G|GV|Glob|Cell|Elems|MapDom|MapVal)_[A-Za-z0-9_]+`)
+
+// modOfHooks: ghost hooks ("ghost before|after call f: target = value") attached to a call inside a loop write their
+// targets in every iteration, so the targets belong to the loop's modifies-set: ghost globals and ghost fields are
+// havocked at the loop head like any other location, function-local ghost variables likewise (loopGhostLocals).
+// Matching is by callee name only (ordinals and argument patterns are ignored): too many targets is harmless.
+func (vc *VC) modOfHooks(st *State, call ssa.CallInstruction, add func(string, Sort, Term, bool, bool)) {
+	if vc.contract == nil || len(vc.contract.Ghosts) == 0 {
+		return
+	}
+	cc := call.Common()
+	keys := []string{vc.calleeKeyOf(st, cc)}
+	if cc.IsInvoke() {
+		keys = append(keys, ifaceMethodKey(cc.Method))
+	} else if _, isB := cc.Value.(*ssa.Builtin); !isB {
+		if _, isF := cc.Value.(*ssa.Function); !isF {
+			keys = append(keys, "dynamic:"+cc.Value.Name())
+		}
+	}
+	for _, g := range vc.contract.Ghosts {
+		if g.Callee == "@return" {
+			continue
+		}
+		pat := g.Callee
+		if i := strings.Index(pat, "("); i > 0 && strings.HasSuffix(pat, ")") && !strings.HasPrefix(pat, "(") {
+			pat = pat[:i]
+		}
+		hit := false
+		for _, k := range keys {
+			switch {
+			case strings.HasPrefix(pat, "@"):
+				hit = hit || k == "dynamic:"+pat[1:]
+			case strings.HasSuffix(pat, "$"):
+				hit = hit || strings.HasSuffix(k, pat[:len(pat)-1])
+			default:
+				hit = hit || strings.Contains(k, pat)
+			}
+		}
+		if !hit {
+			continue
+		}
+		if id, ok := g.Target.(*ast.Ident); ok && vc.effective != nil {
+			isLocal := false
+			for _, gl := range vc.effective.GhostLocals {
+				if gl.Name == id.Name {
+					isLocal = true
+				}
+			}
+			if isLocal {
+				if vc.loopGhostLocals != nil {
+					vc.loopGhostLocals[id.Name] = true
+				}
+				continue
+			}
+		}
+		func() {
+			defer func() {
+				if r := recover(); r != nil {
+					if _, ok := r.(specError); ok {
+						// the target cannot be named at the loop head: give up on precision, not on soundness
+						for n, srt := range vc.arrays {
+							if strings.HasPrefix(n, "GV_") || strings.HasPrefix(n, "G_") {
+								add(n, srt, "", false, strings.HasPrefix(n, "GV_") && !strings.HasPrefix(string(srt), "(Array"))
+							}
+						}
+						return
+					}
+					panic(r)
+				}
+			}()
+			env := vc.fnEnvNames(st)
+			for _, lv := range env.lvals(g.Target) {
+				switch {
+				case lv.Idx == "":
+					add(lv.Arr, lv.Sort, "", false, true)
+				case vc.provisionalLoads != nil && !strings.Contains(lv.Idx, "unknown_"):
+					// x.F with x named at the loop head: a fixed location, provided nothing the index is read from is
+					// itself modified in the loop (checked once the modifies-set is complete, see loopModifies)
+					for _, a := range heapArrayRe.FindAllString(lv.Idx, -1) {
+						vc.provisionalLoads[a] = true
+					}
+					add(lv.Arr, lv.Sort, lv.Idx, true, false)
+				default:
+					add(lv.Arr, lv.Sort, "", false, false)
+				}
+			}
+		}()
+	}
 }
